@@ -241,8 +241,8 @@ package graphql
 //@   nopanic
 //@   ensures v == nil ==> !result
 //@   ensures typeis(v, "*ast.Variable") ==> result
-//@   ensures typeis(v, "*ast.ListValue") && as(v, "*ast.ListValue") != nil ==> (result <==> exists i in 0..len(as(v, "*ast.ListValue").Values): valueHasVariables_0(as(v, "*ast.ListValue").Values[i]))
-//@   ensures typeis(v, "*ast.ObjectValue") && as(v, "*ast.ObjectValue") != nil ==> (result <==> exists i in 0..len(as(v, "*ast.ObjectValue").Fields): as(v, "*ast.ObjectValue").Fields[i] != nil && valueHasVariables_0(as(v, "*ast.ObjectValue").Fields[i].Value))
+//@   ensures typeis(v, "*ast.ListValue") && as(v, "*ast.ListValue") != nil ==> (forall i in 0..len(as(v, "*ast.ListValue").Values): valueHasVariables_0(as(v, "*ast.ListValue").Values[i]) ==> result)
+//@   ensures typeis(v, "*ast.ObjectValue") && as(v, "*ast.ObjectValue") != nil ==> (forall i in 0..len(as(v, "*ast.ObjectValue").Fields): as(v, "*ast.ObjectValue").Fields[i] != nil && valueHasVariables_0(as(v, "*ast.ObjectValue").Fields[i].Value) ==> result)
 //@   loop 1 invariant forall j in 0..rangeindex+1: !valueHasVariables_0(n.Values[j])
 //@   loop 2 invariant forall j in 0..rangeindex+1: !(n.Fields[j] != nil && valueHasVariables_0(n.Fields[j].Value))
 
@@ -251,7 +251,7 @@ package graphql
 //@   functional
 //@   assigns nothing
 //@   nopanic
-//@   ensures result <==> exists i in 0..len(argASTs): argASTs[i] != nil && valueHasVariables_0(argASTs[i].Value)
+//@   ensures forall i in 0..len(argASTs): argASTs[i] != nil && valueHasVariables_0(argASTs[i].Value) ==> result
 //@   loop 1 invariant forall j in 0..rangeindex+1: !(argASTs[j] != nil && valueHasVariables_0(argASTs[j].Value))
 
 //@ func planArguments
